@@ -58,9 +58,10 @@ QRow(g, seq, insSym) == GapRow(g, 0, <<[x \in 1..Len(g) |-> insSym], seq>>)
 QRowV(g, seq, syms) == GapRow(g, 0, <<syms, seq>>)      \* a different symbol (or "-") per gap block
 Change(p, sym) == [i \in 1..Len(Genome) |-> IF i = p THEN sym ELSE Genome[i]]
 Change2(p, q, s1, s2) == [i \in 1..Len(Genome) |-> IF i = p THEN s1 ELSE IF i = q THEN s2 ELSE Genome[i]]
-Singles == [k \in 1..(5 * Len(Genome)) |->
-              LET p == ((k - 1) \div 5) + 1  w == (k - 1) % 5 IN
-              Change(p, CASE w = 0 -> NextBase(Genome[p]) [] w = 1 -> Amb(Genome[p]) [] w = 2 -> AmbCompat(Genome[p]) [] w = 3 -> "N" [] w = 4 -> "-")]
+Singles == [k \in 1..(7 * Len(Genome)) |->      \* every position to each of the three other bases, an incompatible and a compatible code, N, gap
+              LET p == ((k - 1) \div 7) + 1  w == (k - 1) % 7 IN
+              Change(p, CASE w = 0 -> NextBase(Genome[p]) [] w = 1 -> Amb(Genome[p]) [] w = 2 -> AmbCompat(Genome[p]) [] w = 3 -> "N" [] w = 4 -> "-"
+                          [] w = 5 -> NextBase(NextBase(Genome[p])) [] w = 6 -> NextBase(NextBase(NextBase(Genome[p]))))]
 Doubles == << Change2(7, 8, "A", "A"), Change2(8, 9, "T", "C"), Change2(7, 9, "C", "G"), Change2(9, 10, "A", "C"),
               Change2(22, 24, "A", "T"), Change2(23, 24, "G", "N"), Change2(4, 30, "C", "C"), Change2(10, 11, "-", "-"),
               Change2(13, 14, "C", "-"), Change2(1, 2, "-", "-"), Change2(29, 30, "-", "-"), Change2(12, 13, "G", "G") >>
